@@ -195,6 +195,8 @@ static void walk_checks(void)
 	int i, s, id, n = vrt_h_count();
 	char buf[500];
 
+	vrt_h_dump(buf, sizeof(buf));
+	vrt_sample("op1=(kind,node) updates, op2=traversals (visited nodes as hex digits / count):%s", buf);
 	for (i = 0; i < n; i++) {
 		struct vrt_hop *w = vrt_h_get(i);
 		int visited[MAXID], nv = 0, seen[MAXID] = { 0 }, lastkey = -1000;
